@@ -28,7 +28,9 @@ VERIF = os.path.dirname(os.path.dirname(os.path.abspath(__file__)))
 REPO = os.environ.get("VERIF_REPO", "/repo")
 LEAN_DIR = os.path.join(VERIF, "lean")
 OUT_DIR = os.path.join(VERIF, "out")
-EVIDENCE_DIR = os.path.join(VERIF, "evidence")
+# evidence of runs against another tree (VERIF_REPO=<scratch worktree>: seeded changes, fix branches) never
+# overwrites the committed evidence of /repo itself
+EVIDENCE_DIR = os.path.join(VERIF, "evidence") if REPO == "/repo" else os.path.join(OUT_DIR, "evidence_other_tree")
 ALLOWED_AXIOMS = {"propext", "Classical.choice", "Quot.sound"}
 FORBIDDEN = re.compile(
     r"\bsorry\b|\badmit\b|^\s*axiom\s|native_decide|bv_decide|implemented_by|\bunsafe\s|maxHeartbeats\s+0\b",
